@@ -466,7 +466,7 @@ USED_BY = {'is_prerelease': ['C03', 'C04'], 'version_eq': ['C04'], 'version_cmp'
 
 def run(only=None):
     os.makedirs(GEN, exist_ok=True)
-    status = {}; cache = {}
+    status = {}; cache = {}; jobs = []
     for name, (path, hdr, env, panics, dfmt, thm) in defs().items():
         if only is not None and name not in only: continue
         out = os.path.join(GEN, 'Fn_%s.v' % name)
@@ -487,19 +487,24 @@ def run(only=None):
             text = '(* GENERATED: tools/translate_fn.py failed: %r *)\n' % (ex,)
             status[name] = {'status': 'unparsed', 'reason': 'translator error: %r' % (ex,)}
         if not os.path.exists(out) or open(out).read() != text: open(out, 'w').write(text)
-        if status[name]['status'] == 'ok':
-            T.drop_redundant(out, status[name]); status[name]['proof'] = 'by the case split written for the current shape of the source'
-            if not status[name].get('compiles'):
-                # the source may have been rewritten into another, equivalent shape: try the generic split on every atomic test
-                first_error = status[name].get('coq_error')
-                open(out, 'w').write(HEADER + dfmt % body + thm2 + 'Print Assumptions %s.\n' % thname)
-                st2 = {'status': 'ok', 'file': out, 'theorem': thname}
-                T.drop_redundant(out, st2)
-                if st2.get('compiles'):
-                    st2['proof'] = 'by the generic split on atomic tests (the source no longer has the shape the specific script was written for)'
-                    status[name] = st2
-                else:
-                    status[name]['coq_error'] = first_error
+        if status[name]['status'] == 'ok': jobs.append((name, out, HEADER + dfmt % body + thm2 + 'Print Assumptions %s.\n' % thname, thname))
+    def finish(job):
+        name, out, text2, thname = job
+        T.drop_redundant(out, status[name]); status[name]['proof'] = 'by the case split written for the current shape of the source'
+        if not status[name].get('compiles'):
+            # the source may have been rewritten into another, equivalent shape: try the generic split on every atomic test
+            first_error = status[name].get('coq_error')
+            open(out, 'w').write(text2)
+            st2 = {'status': 'ok', 'file': out, 'theorem': thname}
+            T.drop_redundant(out, st2)
+            if st2.get('compiles'):
+                st2['proof'] = 'by the generic split on atomic tests (the source no longer has the shape the specific script was written for)'
+                status[name] = st2
+            else:
+                status[name]['coq_error'] = first_error
+    from concurrent.futures import ThreadPoolExecutor
+    with ThreadPoolExecutor(max_workers=8) as ex:
+        list(ex.map(finish, jobs))
     return status
 
 if __name__ == '__main__':
